@@ -273,7 +273,10 @@ def rule_content_guards(ctx):
            str(got), node=arcs[0])
     # NULL: content must be empty
     f = ctx.func(D + 'NullPayloadDecoder.valueDecoder')
-    g = [x for x in walk_own(f.node) if isinstance(x, ast.If) and norm(x.test) == 'chunk' and raises_in(x.body)]
+    lv = [n.target.id for n in walk_own(f.node) if isinstance(n, ast.For) and isinstance(n.target, ast.Name) and
+          isinstance(n.iter, ast.Call) and getattr(n.iter.func, 'id', '') == 'readFromStream']
+    g = [x for x in walk_own(f.node) if isinstance(x, ast.If) and lv and norm(x.test) in (lv[0], 'len(%s)' % lv[0], '%s != null' % lv[0])
+         and raises_in(x.body)]
     ctx.ob('W.content', f, 'non-empty NULL contents refused', len(g) == 1, '')
     # REAL first octet
     f = ctx.func(D + 'RealPayloadDecoder.valueDecoder')
@@ -287,8 +290,6 @@ def rule_content_guards(ctx):
     for var, lim in (('b', 2),):
         gs = [x for x in walk_own(f.node) if isinstance(x, ast.If) and norm(x.test) == '%s > %d' % (var, lim) and raises_in(x.body)]
         ctx.ob('W.content', f, 'reserved REAL base refused', len(gs) == 1, '')
-    guards = [norm(x.test) for x in walk_own(f.node) if isinstance(x, ast.If) and raises_in(x.body)]
-    ctx.ob('W.content', f, 'empty exponent/mantissa refused', 'not eo or not chunk' in guards and guards.count('not chunk') >= 2, str(guards))
     # constructed-form refusal precedes the reassembly loop
     for q in (D + 'BitStringPayloadDecoder.valueDecoder', D + 'OctetStringPayloadDecoder.valueDecoder'):
         f = ctx.func(q)
